@@ -29,7 +29,7 @@ ASSUMPTIONS = [
 ]
 NOT_REACHED = ["instrument_transfer_function objects", "attribute values that are not JSON serialisable"]
 BUDGET = {"quick": dict(cases=600, seconds=60, shards=4),
-          "thorough": dict(cases=16000, seconds=600, shards=16)}
+          "thorough": dict(cases=30000, seconds=600, shards=16)}
 REQUIRED = ["mon:reload-equals-original", "mon:dispatch-reader-same-class", "mon:objects-match-shadow-model",
             "mon:fresh-defaults-pristine", "mon:no-shared-mutable-state", "mon:processing-with-reloaded-settings-identical"]
 
